@@ -59,6 +59,22 @@ CLAIMED = {
         note="sqrt, erf, ndtri(0.975) uninterpreted and shared by kernel and definition; p<0.05 <=> |Z|>z_crit assumed; symmetry "
              "clauses are corollaries. Trusted: pysym (np.unique/nanmedian via order statistics), z3.",
         technique="symbolic execution + z3 LIA/NIA/UF, order-statistic encoding of unique/median", ref="5 C10"),
+    "C02": dict(
+        text="Bounded symbolic 2-safety verification: every smoother kernel (7 variants, GCV with and without robust weights) is "
+             "executed twice on the same symbolic data with two different symbolic placeholders (and with NaN/+inf/-inf cells for "
+             "the NaN-aware kernels); z3 decides cell-wise equality of outputs and equality of lambda, passthrough with lambda 0 "
+             "below the minimum valid count, and that no non-finite value reaches the int16 store. Every gap pattern, n = 4..5/6.",
+        note="Floats as reals; products/quotients of unknowns uninterpreted (ws2d abstracted over w*y in stage 1, inlined in stage 2); "
+             "results outside int16 outside the claim. Trusted: pysym, z3.",
+        technique="2-run relational symbolic execution + z3 UF/LRA, two-stage callee abstraction", ref="5 C02"),
+    "C03": dict(
+        text="Bounded symbolic verification: ws2dgu / ws2dpgu executed next to reference models written from the statement (run by the "
+             "same evaluator): cell-wise equality for all data, nodata, lambda > 0 (and == 0), p in (0,1), every gap pattern n = 4..6/8; "
+             "exact tie of ws2dgu to the normal equations on a lambda grid (QF_LIRA); whits accessor: 10**sg / s / sg=-inf, p dispatch, "
+             "core-dimension wiring, per-pixel grids kept labelled.",
+        note="Reference shares only ws2d (C01) with the implementation; composition of the 10 reweighting passes in exact arithmetic is "
+             "outside (per-pass weights only); candidates replayed with shape-guided witnesses. Trusted: pysym, z3, xarray contracts.",
+        technique="differential symbolic execution against reference models + z3 UF/LIRA", ref="5 C03"),
 }
 
 NOT_APPLICABLE = {
